@@ -8,6 +8,8 @@ import (
 	"regexp"
 	"strings"
 
+	"github.com/evanw/esbuild/pkg/api"
+
 	. "github.com/evanw/esbuild/verifharness/hlib"
 )
 
@@ -483,21 +485,39 @@ func mutateJS(r *Rng, src string) string {
 // that any other failing input of the same kind is still reported.
 
 var (
-	reNewerSyntax  = regexp.MustCompile(`@|\baccessor\b|\busing\b|import\s+(source|defer)\b|import\s*\.\s*(source|defer)\b|\bwith\s*\{|\bassert\s*\{`)
-	reNoInit       = regexp.MustCompile(`\b(let|var)\s*[\[{]`)
-	reBadTarget    = regexp.MustCompile(`(\+\+|--)\s*\(*[\[{]|[\]}]\)*\s*(\+\+|--|(\*\*|<<|>>>?|&&|\|\||\?\?|[-+*/%&|^])=)`)
-	reLetLet       = regexp.MustCompile(`\b(let|const)\b[^;]*\blet\b`)
-	reLetArrowStmt = regexp.MustCompile(`(^|[;{}\n)])\s*let\s*=>`)
-	reInfStmt      = regexp.MustCompile(`(Infinity|NaN)\s*(;|\}|$)`)
+	reNewerSyntax     = regexp.MustCompile(`@|\baccessor\b|\busing\b|import\s+(source|defer)\b|import\s*\.\s*(source|defer)\b|\bwith\s*\{|\bassert\s*\{`)
+	reNoInit          = regexp.MustCompile(`\b(let|var)\s*[\[{]`)
+	reBadTarget       = regexp.MustCompile(`(\+\+|--)\s*\(*[\[{]|[\]}]\)*\s*(\+\+|--|(\*\*|<<|>>>?|&&|\|\||\?\?|[-+*/%&|^])=)`)
+	reLetLet          = regexp.MustCompile(`\b(let|const)\b[^;]*\blet\b`)
+	reLetArrowStmt    = regexp.MustCompile(`(^|[;{}\n)])\s*let\s*=>`)
+	reStaticBlock     = regexp.MustCompile(`\bstatic\s*\{`)
+	reOctalish        = regexp.MustCompile(`\\[0-9]|(^|[^\w.$\\])0[0-9]`)
+	reAsyncArrowAwait = regexp.MustCompile(`async\s*\(?[^)=]*\bawait\b[^)=]*\)?\s*=>`)
+	reWithIfFn        = regexp.MustCompile(`\bwith\b[\s\S]*\bfunction\b`)
+	reExportStarEval  = regexp.MustCompile(`export\s*\*\s*as\s*(eval|arguments)\b`)
+	reInfStmt         = regexp.MustCompile(`(Infinity|NaN)\s*(;|\}|$)`)
 )
 
 // node accepts, esbuild rejects
 func knownRejection(c *glueCase, goal string) string {
 	e := c.err1
 	switch {
+	case (strings.HasPrefix(e, "Legacy octal literals cannot be used in strict mode") || strings.HasPrefix(e, "Legacy octal escape sequences cannot be used in strict mode")) &&
+		reStaticBlock.MatchString(c.src) && reOctalish.MatchString(c.src):
+		// ECMA-262 11.2.2: all parts of a ClassDeclaration or ClassExpression are strict mode code
+		// (this includes ClassStaticBlock bodies).  12.9.3.1 (Numeric Literals, Early Errors):
+		// LegacyOctalIntegerLiteral and NonOctalDecimalIntegerLiteral (010, 08, 09.5, 00) are
+		// Syntax Errors in strict mode code.  12.9.4.1 (String Literals, Early Errors):
+		// LegacyOctalEscapeSequence (\1..\7, \00, \101, and "\0 [lookahead in {8, 9}]" i.e. '\08')
+		// and NonOctalDecimalEscapeSequence (\8, \9) are Syntax Errors in strict mode code.
+		// esbuild reports them; V8 (node 20) forgets these two checks for code placed DIRECTLY
+		// in a class static block (probed: it does report them in methods, field initialisers,
+		// functions nested in the block, "use strict" code, and it reports every other
+		// strict-mode restriction inside static blocks).  Node is wrong here, not esbuild.
+		return "legacy octal literal/escape directly inside a class static block: Syntax Error per ECMA-262 (strict mode code), accepted by V8 only"
 	case strings.Contains(e, "Top-level await is currently not supported"):
 		return "top-level await with cjs/iife output (documented esbuild restriction)"
-	case e == "Invalid assignment target" && (strings.HasSuffix(strings.TrimSpace(c.mark1), ")") || strings.HasSuffix(strings.TrimSpace(c.mark1), "`")):
+	case e == "Invalid assignment target" && (strings.HasSuffix(stripComments(c.mark1), ")") || strings.HasSuffix(stripComments(c.mark1), "`")):
 		return "call expression as assignment target: early error in ECMA-262 and esbuild, run-time ReferenceError in V8 (web compatibility)"
 	case reLetArrowStmt.MatchString(c.src) && strings.Contains(e, "\"=>\""):
 		return "recurrence of known finding C13-D2: statement `let => 1` (sloppy mode) rejected"
@@ -513,6 +533,21 @@ func knownRejection(c *glueCase, goal string) string {
 
 // second Transform differs from the first output
 func knownNotFixed(c *glueCase) string {
+	if strings.Contains(c.err2, "has already been declared") && reWithIfFn.MatchString(c.src) {
+		return "recurrence of known finding C13-D5: function declaration in an if/label body inside `with` is lowered to `let g` + `var g` in one block"
+	}
+	if c.err2 != "" && reAsyncArrowAwait.MatchString(c.out1) {
+		return "recurrence of known finding C13-D3e: `await` as parameter of an async arrow function accepted"
+	}
+	if strings.Contains(c.err2, "Cannot use \"let\" as an identifier here") && reLetLet.MatchString(c.out1) {
+		return "recurrence of known finding C13-D3c: `let` as a lexically bound name accepted"
+	}
+	if reExportStarEval.MatchString(c.src) {
+		return "recurrence of known finding C13-D6: `export * as eval/arguments` becomes a binding named eval/arguments in strict code"
+	}
+	if c.err2 == "" && (strings.Contains(c.out1, "/*") || strings.Contains(c.out1, "//")) && noParens(stripComments(c.out1)) == noParens(stripComments(c.out2)) {
+		return "recurrence of known finding C13-D4c: an expression behind a preserved comment gains a pair of parentheses on the second pass"
+	}
 	if c.err2 == "" && (strings.Contains(c.src, "//!") || strings.Contains(c.src, "/*!") || strings.Contains(c.src, "@license") || strings.Contains(c.src, "@preserve")) {
 		return "recurrence of known finding C13-D4b: a stripped legal comment leaves a semicolon that the second pass drops (minify-whitespace)"
 	}
@@ -523,29 +558,42 @@ func knownNotFixed(c *glueCase) string {
 }
 
 // node accepts the input but not the output
-func knownInvalidOutput(c *glueCase, goal, nodeErr string) string { return "" }
-
-// node rejects the input in both goals, esbuild accepts it and the output is rejected too
-func knownLenient(c *glueCase, nodeErrScript, nodeErrModule, nodeErrOut string) string {
-	switch {
-	case nodeErrScript == "Illegal return statement" || nodeErrOut == "Illegal return statement":
-		return "top-level return (allowed by esbuild for CommonJS, rejected by vm.Script)"
-	case reNewerSyntax.MatchString(c.src):
-		return "syntax newer than node 20 involved"
-	case strings.HasPrefix(nodeErrOut, "Invalid regular expression") || strings.HasPrefix(nodeErrScript, "Invalid regular expression"):
-		return "regular expression bodies are not validated by esbuild (documented)"
-	case strings.HasPrefix(nodeErrOut, "Missing initializer in destructuring declaration") && reNoInit.MatchString(c.out1):
-		return "recurrence of known finding C13-D3a: destructuring declaration without initializer accepted"
-	case strings.HasPrefix(nodeErrOut, "Invalid left-hand side") && reBadTarget.MatchString(c.out1):
-		return "recurrence of known finding C13-D3b: array/object literal as target of update or compound assignment accepted"
-	case (awaitish.MatchString(c.src) || strings.Contains(c.out1, "await")) && (strings.Contains(c.src, "import") || strings.Contains(c.src, "export")):
-		return "recurrence of known finding C13-D3d: `await` used as an identifier together with ES module syntax accepted"
-	case strings.HasPrefix(nodeErrOut, "let is disallowed as a lexically bound name") && reLetLet.MatchString(c.out1):
-		return "recurrence of known finding C13-D3c: `let` as a lexically bound name accepted"
+func knownInvalidOutput(c *glueCase, goal, nodeErr string) string {
+	if strings.Contains(nodeErr, "has already been declared") && reWithIfFn.MatchString(c.src) {
+		return "recurrence of known finding C13-D5: function declaration in an if/label body inside `with` is lowered to `let g` + `var g` in one block"
+	}
+	if reExportStarEval.MatchString(c.src) && strings.Contains(nodeErr, "eval or arguments") {
+		return "recurrence of known finding C13-D6: `export * as eval/arguments` becomes a binding named eval/arguments in strict code"
 	}
 	return ""
 }
 
+func noParens(s string) string {
+	return strings.NewReplacer("(", "", ")", "").Replace(s)
+}
+
+// node rejects the input in both goals, esbuild accepts it and the output is rejected too
+func knownLenient(c *glueCase, nodeErrScript, nodeErrModule, nodeErrOut string) string {
+	switch {
+	case nodeErrScript == "Illegal return statement" || strings.Contains(nodeErrOut, "Illegal return statement"):
+		return "top-level return (allowed by esbuild for CommonJS, rejected by vm.Script)"
+	case reNewerSyntax.MatchString(c.src):
+		return "syntax newer than node 20 involved"
+	case strings.Contains(nodeErrOut, "Invalid regular expression") || strings.HasPrefix(nodeErrScript, "Invalid regular expression"):
+		return "regular expression bodies are not validated by esbuild (documented)"
+	case strings.Contains(nodeErrOut, "Missing initializer in destructuring declaration") && reNoInit.MatchString(c.out1):
+		return "recurrence of known finding C13-D3a: destructuring declaration without initializer accepted"
+	case strings.Contains(nodeErrOut, "Invalid left-hand side") && reBadTarget.MatchString(c.out1):
+		return "recurrence of known finding C13-D3b: array/object literal as target of update or compound assignment accepted"
+	case (awaitish.MatchString(c.src) || strings.Contains(c.out1, "await")) && (strings.Contains(c.src, "import") || strings.Contains(c.src, "export")):
+		return "recurrence of known finding C13-D3d: `await` used as an identifier together with ES module syntax accepted"
+	case strings.Contains(nodeErrOut, "not a valid identifier name in an async function") && reAsyncArrowAwait.MatchString(c.out1):
+		return "recurrence of known finding C13-D3e: `await` as parameter of an async arrow function accepted"
+	case strings.Contains(nodeErrOut, "let is disallowed as a lexically bound name") && reLetLet.MatchString(c.out1):
+		return "recurrence of known finding C13-D3c: `let` as a lexically bound name accepted"
+	}
+	return ""
+}
 
 // ---------------------------------------------------------------------------
 // Fixed corpus: one replay per known finding (listed in known_findings.d/C13.json).
@@ -570,6 +618,10 @@ var knownReplays = []knownReplay{
 	{"known-D3b", "known-D3b-pattern-as-update-or-compound-assignment-target-accepted", "[a] += 1; ++[b]", variant{}, "passthrough", "an error"},
 	{"known-D3c", "known-D3c-let-as-lexically-bound-name-accepted", "let [let] = 1", variant{}, "passthrough", "an error"},
 	{"known-D3d", "known-D3d-await-identifier-with-module-syntax-accepted", "function f(){ return aw\\u0061it } import.meta", variant{}, "passthrough", "an error"},
+	{"known-D3e", "known-D3e-await-parameter-of-async-arrow-accepted", "function f(){ async (await) => ({}) }", variant{}, "passthrough", "an error"},
+	{"known-D5", "known-D5-function-in-if-inside-with-duplicate-declaration", "function f(){ with (x) if (a) function g(){} }", variant{}, "unreparsable", "output that esbuild and node can read back (the input is a valid sloppy-mode script)"},
+	{"known-D6", "known-D6-export-star-as-eval-creates-strict-binding", "export * as eval from 'm'", variant{format: api.FormatESModule}, "invalidout", "valid module output (the input is a valid module)"},
+	{"known-D4c", "known-D4c-parentheses-added-behind-preserved-comment", "class Foo { foo =/**/() => super.x }", variant{}, "notfixed", "second Transform reproduces the first output"},
 	{"known-D4a", "known-D4a-infinity-statement-dropped-by-second-pass", "if (x) 1e400; else y", variant{}, "notfixed", "second Transform reproduces the first output"},
 	{"known-D4b", "known-D4b-semicolon-after-stripped-legal-comment", "if (1) {foo() //! test\n}", variant{mw: true}, "notfixed", "second Transform reproduces the first output"},
 }
@@ -609,6 +661,9 @@ func replayKnown(st *Stats) {
 		case "notfixed":
 			fails = r.err1 == "" && r.err2 == "" && r.out1 != r.out2
 			got = r.out2
+		case "invalidout":
+			fails = srcOK && r.err1 == "" && !outOK
+			got = "node: " + nv[4*i+3].Err
 		case "unreparsable":
 			fails = r.err1 == "" && (r.err2 != "" || !outOK)
 			got = r.err2 + " / node: " + nv[4*i+3].Err
